@@ -10,6 +10,7 @@ CONSTANTS
   WithDrain = TRUE
   Quals = {"derr", "verr"}
   Scenario = "any"
+  MaxPend = 1
 INIT Init
 NEXT SimNext
 CHECK_DEADLOCK FALSE
